@@ -53,6 +53,7 @@ def main(argv=None):
     ap.add_argument("--soft-deadline", type=float, default=0.0)
     ap.add_argument("--replay")
     ap.add_argument("--offset", type=int, default=0)
+    ap.add_argument("--seed-tag", default=None)
     a = ap.parse_args(argv)
     faulthandler.enable()
     from . import core
@@ -81,7 +82,7 @@ def main(argv=None):
             if a.soft_deadline and time.time() - t_start > a.soft_deadline:
                 out.write(dumps(dict(truncated=True, at=idx)) + "\n")
                 break
-            seed = core.H(a.base_seed, a.prop, mode, idx + a.offset)
+            seed = core.H(a.base_seed, a.prop, a.seed_tag or mode, idx + a.offset)
             faulthandler.dump_traceback_later(600, exit=True)
             t0 = time.time()
             try:
